@@ -177,6 +177,8 @@ func init() {
 		// at every composed position.  A merge must not disturb the definitions it reads.
 		nShared := len(pcs)
 		pcs = append(pcs, sharedDefinitionCases(c, "c11-shared-definitions")...)
+		// branches whose required members have names with characters that mean something to a format string or a tag
+		pcs = append(pcs, requiredPunctuatedNames("c11-punctuated-names", true)...)
 		// two nodes under one Go type name that differ only inside an allOf below them: each keeps its own conjunction
 		for _, pc := range nearDupCases(c, "c11-near-duplicates") {
 			if strings.Contains(pc.Labels[0], "allOf") {
